@@ -1,5 +1,6 @@
 import GmqttVerif.Model.Broker
 import GmqttVerif.Proofs.C07Broker
+import GmqttVerif.Generated.PubOrder
 /-
   C07 (broker level) — Retained messages: last value per topic, replayed to new subscriptions per spec.
 
@@ -441,3 +442,18 @@ example : ¬ NoRetainedWill exWillB ∧ (exWillB.closeIn "a").retained.map (·.1
   exact absurd this (by decide)
 
 end GmqttVerif.Broker
+
+/-! ### order of effects, re-read from the source on every run -/
+namespace GmqttVerif.C07Order
+open GmqttVerif.Generated
+
+/-- In `publishHandler` and in `sendWillLocked` the hook is consulted first, the retained store is updated next and the
+    message is delivered last (`Generated/PubOrder.lean`, rewritten from server/client.go and server/server.go on every check
+    run). This is the order the broker model has (`B.publish` / `B.sendWill` update `B.retained` from what the hook let through
+    and then call `deliver`); with the delivery in front of the store update a SUBSCRIBE handled in between — by another
+    connection, while the publisher's goroutine is between the two calls — would see the message neither live nor retained,
+    although the publisher is acknowledged and the message is kept afterwards. -/
+theorem retained_updated_between_hook_and_delivery :
+    publishOrderN = [0, 1, 1, 2] ∧ willOrderN = [0, 1, 1, 2] := by decide
+
+end GmqttVerif.C07Order
